@@ -214,7 +214,7 @@ impl Prop for C10 {
         80
     }
     fn cases(&self, t: Tier) -> usize {
-        t.pick(6_000, 200_000)
+        t.pick(60_000, 4_000_000)
     }
     fn rayon_threads(&self) -> Option<usize> {
         Some(2)
